@@ -22,6 +22,8 @@ pub enum Ty {
     Opt(Box<Ty>), Seq(Box<Ty>), Map(Box<Ty>), Prop(Box<Ty>),
     Struct(Vec<(String, Ty)>),
     Enum(Vec<String>),
+    /// fixed-length tuple `tup(T;T;…)`: deserialize_tuple (implementation-only ops; the Lean models do not parse it)
+    Tuple(Vec<Ty>),
 }
 
 pub fn show_ty(t: &Ty) -> String {
@@ -33,6 +35,7 @@ pub fn show_ty(t: &Ty) -> String {
         Ty::Map(t) => format!("map({})", show_ty(t)), Ty::Prop(t) => format!("prop({})", show_ty(t)),
         Ty::Struct(fs) => format!("st({})", fs.iter().map(|(n, t)| format!("{}:{}", n, show_ty(t))).collect::<Vec<_>>().join(";")),
         Ty::Enum(vs) => format!("en({})", vs.join(";")),
+        Ty::Tuple(ts) => format!("tup({})", ts.iter().map(show_ty).collect::<Vec<_>>().join(";")),
     }
 }
 
@@ -64,6 +67,15 @@ fn parse_ty_inner(s: &str) -> Option<(Ty, &str)> {
             let name = &r[..colon];
             let (t, r2) = parse_ty_inner(&r[colon + 1..])?;
             fs.push((name.to_string(), t));
+            r = r2.strip_prefix(';').unwrap_or(r2);
+        }
+    }
+    if let Some(mut r) = s.strip_prefix("tup(") {
+        let mut ts = vec![];
+        loop {
+            if let Some(r2) = r.strip_prefix(')') { return Some((Ty::Tuple(ts), r2)); }
+            let (t, r2) = parse_ty_inner(r)?;
+            ts.push(t);
             r = r2.strip_prefix(';').unwrap_or(r2);
         }
     }
@@ -112,6 +124,7 @@ impl<'de, 'a> DeserializeSeed<'de> for TySeed<'a> {
                 let names: Vec<&'static str> = vs.iter().map(|n| leak_str(n)).collect();
                 d.deserialize_enum("E", leak_fields(names), EnumVisitor(vs))
             }
+            Ty::Tuple(ts) => d.deserialize_tuple(ts.len(), TupleVisitor(ts)),
         }
     }
 }
@@ -124,6 +137,23 @@ impl<'de, 'a> Visitor<'de> for OptVisitor<'a> {
     fn visit_unit<E: de::Error>(self) -> Result<String, E> { Ok("none".into()) }
     fn visit_some<D: Deserializer<'de>>(self, d: D) -> Result<String, D::Error> {
         TySeed(self.0).deserialize(d).map(|v| format!("some({})", v))
+    }
+}
+
+/// serde's tuple visitor: reads exactly `len` elements, fewer is an invalid-length error
+struct TupleVisitor<'a>(&'a [Ty]);
+impl<'de, 'a> Visitor<'de> for TupleVisitor<'a> {
+    type Value = String;
+    fn expecting(&self, f: &mut fmt::Formatter) -> fmt::Result { f.write_str("a tuple") }
+    fn visit_seq<A: SeqAccess<'de>>(self, mut seq: A) -> Result<String, A::Error> {
+        let mut items = vec![];
+        for (i, t) in self.0.iter().enumerate() {
+            match seq.next_element_seed(TySeed(t))? {
+                Some(v) => items.push(v),
+                None => return Err(de::Error::invalid_length(i, &"a tuple")),
+            }
+        }
+        Ok(format!("({})", items.join(",")))
     }
 }
 
